@@ -16,7 +16,7 @@ EXHAUSTIVE = True
 RULE = ("E1: complete product of small alphabets (types x codes x mids x token lengths x option lists x payloads) "
         "for encode/decode, and complete sets of byte strings (short strings over a structural byte alphabet; every "
         "truncation / single-byte substitution / insertion / deletion of seed datagrams) for decode; whole datagrams of 64..4096 bytes "
-        "through the real recvmsg transport over a fake socket that cuts what does not fit the buffer it is handed. "
+        "through the real recvmsg transport over a fake socket that cuts what does not fit the buffer it is handed; an ordinary datagram parsed again after 3000 datagrams with unregistered option numbers. "
         "A case is non-trivial+distinct by its signature (direction, outcome class, option-format multiset, "
         "extended-field classes hit, length class).")
 ASSUMPTIONS = [
@@ -321,11 +321,40 @@ TAIL = (0x00, 0x01, 0x0C, 0x0D, 0x0E, 0x0F, 0x10, 0x41, 0x80, 0xB1, 0xC0, 0xD0, 
 FIRST = (0x40, 0x41, 0x48, 0x49, 0x4F, 0x50, 0x60, 0x70, 0x00, 0x80, 0xC0)
 
 
+def long_history(res):
+    """Parsing does not depend on what the process has parsed before: 3000 datagrams, each with another option number nobody has
+    registered, and then an ordinary one - whose options still come out with their values and types."""
+    known = rc.encode((0, 1, 0x0102, b"t", [(3, b"h.example"), (4, b"e"), (6, b"\x05"), (11, b"p"), (12, b"\x28"), (15, b"q=1")], b"pl"))
+
+    def view():
+        m = Message.decode(known)
+        return (m.opt.uri_host, tuple(m.opt.etags), m.opt.observe, tuple(m.opt.uri_path), m.opt.content_format, tuple(m.opt.uri_query), bytes(m.payload))
+    want = ("h.example", (b"e",), 5, ("p",), 40, ("q=1",), b"pl")
+    case = {"dir": "history", "bytes": known}
+    res.evaluations += 1
+    for round_ in range(2):
+        got = view()
+        if got != want or any(type(a) is not type(b) and not (isinstance(a, int) and isinstance(b, int)) for a, b in zip(got, want)):
+            res.violate(Violation("wellformed-misparsed", core.jsonable(want), core.jsonable([repr(x) for x in got]), "util/__init__.py:ExtensibleIntEnum._missing_",
+                                  dict(case, after_unknown_numbers=3000 * round_), key="history"))
+            return
+        for n in range(3000):
+            num = 2050 + 2 * n        # elective, unregistered
+            try:
+                Message.decode(rc.encode((1, 1, n & 0xFFFF, b"", [(num, b"x")], b"")))
+            except error.UnparsableMessage:
+                pass
+    res.outcomes.add("history")
+    res.signatures.add(("history",))
+    res.traces += 1
+
+
 def job_B_short(arg):
     tier, seed, part = arg
     res = Result()
     if part == "tiny":
         through_socket(res)
+        long_history(res)
         check_decode(res, b"", True)
         for a in range(256):
             check_decode(res, bytes([a]), True)
@@ -420,6 +449,8 @@ def replay(case, scenario, seed):
     res = Result()
     if case["dir"] == "socket":
         through_socket(res)
+    elif case["dir"] == "history":
+        long_history(res)
     elif case["dir"] == "A":
         t, c, mid, tok, items, pl = case["msg"]
         check_encode(res, t, c, mid, tok, [tuple(tuple(x) if isinstance(x, list) else x for x in it) for it in items], pl)
